@@ -13,17 +13,20 @@ Local Open Scope N_scope.
    returns false and Err() reports it.  Lines before it have been delivered. *)
 Definition max_token : N := 65536.
 
+(* list reversal in linear time (List.rev is quadratic; bodies can hold 64 KiB lines) *)
+Definition frev {A} (l : list A) : list A := rev_append l [].
+
 Definition drop_cr (line : bytes) : bytes :=
-  match rev line with
-  | c :: r => if N.eqb c 13 then rev r else line
+  match frev line with
+  | c :: r => if N.eqb c 13 then frev r else line
   | [] => line
   end.
 
 (* raw lines: split at 10; the text after the last '\n' is a line only if it is not empty *)
 Fixpoint raw_lines_aux (cur : bytes) (s : bytes) : list bytes :=
   match s with
-  | [] => match cur with [] => [] | _ => [rev cur] end
-  | c :: s' => if N.eqb c 10 then rev cur :: raw_lines_aux [] s' else raw_lines_aux (c :: cur) s'
+  | [] => match cur with [] => [] | _ => [frev cur] end
+  | c :: s' => if N.eqb c 10 then frev cur :: raw_lines_aux [] s' else raw_lines_aux (c :: cur) s'
   end.
 Definition raw_lines (s : bytes) : list bytes := raw_lines_aux [] s.
 
